@@ -365,18 +365,33 @@ theorem fmtHeap_allocates_no_leaf (fuel : Nat) (ctx : HCtx) (h h' : Heap) (r r' 
     cases hf
     exact fun i c hi hc => (fmtH_good hst).ext.new_isAlloc hi hc
 
-/-- **Leaf identity (`fmtHeap_leaf_identity`).** Formatting a non-string leaf (None, bool, number,
-    bytes, arbitrary object) returns the same reference and leaves the heap as it is. -/
-theorem fmtHeap_leaf_identity (fuel : Nat) (ctx : HCtx) (h h' : Heap) (r r' : Ref) (v : Val)
-    (hc : h[r]? = some (.leaf v)) (hf : fmtHeap fuel ctx h r = .ok (r', h')) : r' = r ∧ h' = h := by
+/-- **Leaf identity (`fmtHeap_leaf_identity`).** Formatting a non-string leaf — None, bool, number,
+    bytes, arbitrary object (`Cell.leaf`) or the MUTABLE binary leaf bytearray (`Cell.mbytes`) —
+    returns the same reference and leaves the heap as it is. -/
+theorem fmtHeap_leaf_identity (fuel : Nat) (ctx : HCtx) (h h' : Heap) (r r' : Ref) (c : Cell)
+    (hc : h[r]? = some c) (hl : isLeafCell c = true)
+    (hf : fmtHeap fuel ctx h r = .ok (r', h')) : r' = r ∧ h' = h := by
   unfold fmtHeap at hf
   split at hf
   · cases hf
   · rename_i r1 st hst
     cases hf
     have hn : MemoNoLeaf { heap := h, memo := [] } := by intro x d hx; simp [memoGet] at hx
-    have := fmtH_leaf hn hc hst
+    have := fmtH_leaf hn hc hl hst
     exact ⟨this.1, by rw [this.2]⟩
+
+/-- The two binary leaves spelled out: `bytes` and `bytearray` objects come back as the very same
+    object (a bytearray is mutable: an equal but detached copy would be observable by a later write). -/
+theorem fmtHeap_binary_identity (fuel : Nat) (ctx : HCtx) (h h' : Heap) (r r' : Ref) (b : String)
+    (hc : h[r]? = some (.leaf (.bytes b)) ∨ h[r]? = some (.mbytes b))
+    (hf : fmtHeap fuel ctx h r = .ok (r', h')) : r' = r ∧ h' = h := by
+  rcases hc with hc | hc
+  · exact fmtHeap_leaf_identity fuel ctx h h' r r' _ hc rfl hf
+  · exact fmtHeap_leaf_identity fuel ctx h h' r r' _ hc rfl hf
+
+example : (match fmtHeap 4 [] [.mbytes "7b617d", .leaf (.bytes "7b617d"), .list 0 [0, 1, 0]] 2 with
+    | .ok (r, h) => r == 3 && (match h[3]? with | some (Cell.list 0 [0, 1, 0]) => true | _ => false)
+    | .error _ => false) = true := by decide +kernel
 
 /-- The empty memo of a top-level call has no leaf keys, and no call ever adds one. -/
 theorem memoNoLeaf_invariant (fuel : Nat) (ctx : HCtx) (isRec : Bool) (r r' : Ref) (st st' : St)
@@ -386,8 +401,8 @@ theorem memoNoLeaf_invariant (fuel : Nat) (ctx : HCtx) (isRec : Bool) (r r' : Re
 
 /-- **List nodes (leaf identity and sharing at every node).** Formatting a list object that the
     memo does not yet answer for — at the top of a call or anywhere inside a traversal — yields a
-    NEW list cell of the same class tag and length; a member that is a non-string leaf is the same
-    reference in the result (`fmtHeap_leaf_identity` at every node); a container member that
+    NEW list cell of the same class tag and length; a member that is a non-string leaf (immutable
+    leaf or bytearray: `isLeafCell`) is the same reference in the result (`fmtHeap_leaf_identity` at every node); a container member that
     occurs at two positions is formatted once and the result holds one shared reference at both
     positions (`fmtHeap_sharing`: the id-keyed memo). -/
 theorem fmtH_list_node (n : Nat) (ctx : HCtx) (isRec : Bool) (r r' : Nat) (st st' : St)
@@ -395,7 +410,7 @@ theorem fmtH_list_node (n : Nat) (ctx : HCtx) (isRec : Bool) (r r' : Nat) (st st
     (hn : MemoNoLeaf st) (hmiss : memoHit st r = none) (hc : st.heap[r]? = some (.list tag rs))
     (hf : fmtH (n + 1) ctx isRec r st = .ok (r', st')) :
     ∃ rs', st'.heap[r']? = some (.list tag rs') ∧ st.heap.length ≤ r' ∧ rs'.length = rs.length ∧
-      All₂ (fun x y => ∀ v, st.heap[x]? = some (.leaf v) → y = x) rs rs' ∧
+      All₂ (fun x y => ∀ c, st.heap[x]? = some c → isLeafCell c = true → y = x) rs rs' ∧
       (∀ (i j x : Nat), i < j → rs[i]? = some x → rs[j]? = some x → isContainerAt st.heap x = true →
         rs'[i]? = rs'[j]?) := by
   unfold fmtH at hf
@@ -417,7 +432,7 @@ theorem fmtH_tuple_node (n : Nat) (ctx : HCtx) (isRec : Bool) (r r' : Nat) (st s
     (hn : MemoNoLeaf st) (hmiss : memoHit st r = none) (hc : st.heap[r]? = some (.tuple tag rs))
     (hf : fmtH (n + 1) ctx isRec r st = .ok (r', st')) :
     ∃ rs', st'.heap[r']? = some (.tuple tag rs') ∧ st.heap.length ≤ r' ∧ rs'.length = rs.length ∧
-      All₂ (fun x y => ∀ v, st.heap[x]? = some (.leaf v) → y = x) rs rs' ∧
+      All₂ (fun x y => ∀ c, st.heap[x]? = some c → isLeafCell c = true → y = x) rs rs' ∧
       (∀ (i j x : Nat), i < j → rs[i]? = some x → rs[j]? = some x → isContainerAt st.heap x = true →
         rs'[i]? = rs'[j]?) := by
   unfold fmtH at hf
@@ -453,7 +468,7 @@ theorem fmtHeap_sharing (fuel n : Nat) (ctx : HCtx) (isRec : Bool) (x y : Nat) (
 theorem fmtHeap_list (n : Nat) (ctx : HCtx) (h h' : Heap) (r r' : Nat) (tag : Nat) (rs : List Ref)
     (hc : h[r]? = some (.list tag rs)) (hf : fmtHeap (n + 1) ctx h r = .ok (r', h')) :
     ∃ rs', h'[r']? = some (.list tag rs') ∧ h.length ≤ r' ∧ rs'.length = rs.length ∧
-      All₂ (fun x y => ∀ v, h[x]? = some (.leaf v) → y = x) rs rs' ∧
+      All₂ (fun x y => ∀ c, h[x]? = some c → isLeafCell c = true → y = x) rs rs' ∧
       (∀ (i j x : Nat), i < j → rs[i]? = some x → rs[j]? = some x → isContainerAt h x = true →
         rs'[i]? = rs'[j]?) := by
   unfold fmtHeap at hf
